@@ -154,7 +154,7 @@ def arr_eq(I, ctx, a, b):
                   z3.ForAll([j], z3.Implies(z3.And(j >= 0, j < B._z(a.n)), B._zb(B.eq_formula(I, ctx, a.elem(j), b.elem(j))))))
 
 
-NP_TYPE_OF_TAG = {"int": "int64", "uint8": "uint8", "str": "str_", "object": "object_", "float": "float64", "bool": "bool_",
+NP_TYPE_OF_TAG = {"wideint": "int64", "int": "int64", "uint8": "uint8", "str": "str_", "object": "object_", "float": "float64", "bool": "bool_",
                   "date": "datetime64"}
 
 
@@ -252,6 +252,14 @@ def arr_astype(I, ctx, a, dt):
         return NArr(a.n, lambda i: B.wrap(B.zint(a.elem(i)) % 256), "uint8", "astype")
     if tag == "bool":
         return NArr(a.n, lambda i: B.wrap(B.zbool(a.elem(i))), "bool", "astype")
+    if tag == "int" and a.dtype == "wideint":
+        # 64-bit integers narrowed to the 32-bit dtype of integer variables: values inside the 32-bit range are kept, the others wrap
+        # (uninterpreted)
+        ctx.assumed_ext.add("astype from a 64-bit to a 32-bit integer dtype keeps values in [-2^31, 2^31) and wraps the others (uninterpreted WRAP32)")
+        def narrow(i):
+            x = B.zint(a.elem(i))
+            return B.wrap(z3.If(z3.And(x >= -2**31, x < 2**31), x, WRAP32(x)))
+        return NArr(a.n, narrow, "int", "astype")
     if tag == "str" and a.dtype not in ("str", "object"):
         # numbers become their text: no longer equal to the numbers they were
         def text(i):
@@ -340,7 +348,10 @@ def install(I):
 
     @ext("zeros")
     def _zeros(ctx, n, dtype=None):
-        return NArr(B.wrap(B.zint(n)) if not isinstance(n, int) else n, lambda i: 0, dtype_tag(I, dtype) or "float", "zeros")
+        if isinstance(n, TupleVal) and len(n.items) == 1:
+            n = n.items[0]
+        tag = dtype_tag(I, dtype) or "float"
+        return NArr(B.wrap(B.zint(n)) if not isinstance(n, int) else n, (lambda i: False) if tag == "bool" else (lambda i: 0), tag, "zeros")
 
     @ext("ones")
     def _ones(ctx, n, dtype=None):
@@ -400,6 +411,44 @@ def install(I):
         ctx.assume(z3.And(w >= 0, w < zn(a), conv(a.elem(w)) == m))
         return Sym(m)
 
+    def _truthy(v):
+        if isinstance(v, bool):
+            return z3.BoolVal(v)
+        if isinstance(v, Sym) and v.kind == "bool":
+            return B.zbool(v)
+        if isinstance(v, (Inf, MaybeInf)):
+            return z3.BoolVal(True) if isinstance(v, Inf) else z3.Or(v.isinf, v.isneg, B.zreal(v.val) != 0)
+        return B.zreal(v) != 0
+
+    @ext("copyto")
+    def _copyto(ctx, dst, src, **k):
+        """numpy.copyto(dst, src): writes into the array object dst; every holder of that object sees it. Recorded so that contracts
+        can state which arrays may be written in place."""
+        ctx.assumed_ext.add("numpy.copyto(dst, src) overwrites the elements of dst in place")
+        ctx.ghost.setdefault("written_in_place", []).append(dst)
+        if isinstance(dst, NArr) and isinstance(src, NArr):
+            dst.elem = src.elem
+        return None
+
+    @ext("any")
+    def _any(ctx, a, **k):
+        ctx.assumed_ext.add("numpy.any(a) / numpy.all(a): some / every element is non-zero (true)")
+        a = as_narr(I, ctx, a)
+        return B.wrap(exists(a, _truthy))
+
+    @ext("all")
+    def _all(ctx, a, **k):
+        ctx.assumed_ext.add("numpy.any(a) / numpy.all(a): some / every element is non-zero (true)")
+        a = as_narr(I, ctx, a)
+        return B.wrap(forall(a, _truthy))
+
+    @ext("shape")
+    def _shape(ctx, a):
+        if isinstance(a, NArr2):
+            return TupleVal([B.wrap(B._z(a.rows)), B.wrap(B._z(a.cols))])
+        a = as_narr(I, ctx, a)
+        return TupleVal([B.wrap(zn(a))])
+
     @ext("can_cast")
     def _can_cast(ctx, frm, to, casting="safe"):
         ctx.assumed_ext.add("numpy.can_cast(from, to, 'safe'): same dtype, or bool / uint8 into any wider numeric or object dtype; never float into int or anything into bool")
@@ -438,7 +487,7 @@ def install(I):
         if k == "str_" and tag is not None:
             return tag == "str"
         if k == "integer" and tag is not None:
-            return tag in ("int", "uint8")
+            return tag in ("int", "uint8", "wideint")
         if k == "floating" and tag is not None:
             return tag == "float"
         if k == "bool_" and tag is not None:
@@ -773,6 +822,7 @@ def recarr_getattr(I, ctx, r, name):
     return None
 
 
+WRAP32 = z3.Function("WRAP32", z3.IntSort(), z3.IntSort())
 NPROUND = z3.Function("NPROUND", z3.RealSort(), z3.IntSort(), z3.RealSort())
 _ORDERS = {}
 
